@@ -29,7 +29,7 @@ claims = {
    text="Table obligations over the REAL symbol table (getSymbol's composite literal evaluated by the engine for every token): binary operators fall into Go's five levels in Go's order, every level is left-associative (led recursion binds with its own lbp), unary nud binding power exceeds every binary lbp and is below every postfix lbp; contracts on ledInfix / negateNud / complementNud / notNud / doExpression tie the table to the Pratt loop (the loop continues exactly while the next token's lbp exceeds the caller's rbp). Not covered: that evaluation of the resulting tree computes Go's value (C04/C07 slices).",
    technique=TECH),
  'C06': dict(level='proof', design='5.6',
-   text="Case contracts on the control-flow cases of (*compiler).compile (if, &&, for, range, switch, return, lambda) proved from the real case bodies: jump spans are computed from the lengths of the emitted blocks, placeholder BREAK/CONTINUE are rewritten to jumps only inside the loop/switch block being closed, nested blocks already closed are left alone; VM-side JUMP/JUMPFALSE/JUMPTRUE/RETURN cases are in the C07 ISA contracts. The function-level contracts of compile/compileAll are trusted (recursion through the contract being proved, tree shape assumed); see DESIGN.md 11.2.",
+   text="Case contracts on the control-flow cases of (*compiler).compile (if, &&, for, range, switch, return, lambda) proved from the real case bodies: jump spans are computed from the lengths of the emitted blocks, placeholder BREAK/CONTINUE are rewritten to jumps only inside the loop/switch block being closed, nested blocks already closed are left alone, rewritten BREAKs in switch target the end of the switch; ifNud nests else-if chains; VM-side JUMP/JUMPFALSE/JUMPTRUE/RETURN cases are in the C07 ISA contracts. The function-level contracts of compile/compileAll are trusted (recursion through the contract being proved, tree shape assumed); see DESIGN.md 11.2.",
    technique=TECH),
  'C08': dict(level='proof', design='5.8',
    text="Contracts on the scope machinery (lookup.Read/Write/Assign/Index/Shadow/Drop/shadow/unshadow; compiler Begin/Shadow/End) against a ghost chain-of-bindings view: a declaration inside a block shadows, End restores exactly the outer binding (including a binding that was itself shadowing), slots are never shared between live names. Compile cases that open blocks (if, for, range, switch, lambda) are proved to pair Begin/End on every exit path.",
@@ -38,13 +38,13 @@ claims = {
    text="Abstract-view contracts on numericMap and stringMap (Len, Get, Set, Delete, Range and their yield closures): view = finite map from key to value over the live entries; Set/Delete/Get stated over the whole view (other keys unchanged), Len = cardinality, Range visits live keys once. Two obligations (W2 of Set: a key deleted and re-inserted during a range can be visited twice) are genuine defects recorded as known findings. intMap/Value-keyed maps go through the same two implementations via the proved key-normalisation lemma intKey.",
    technique=TECH),
  'C11': dict(level='proof', design='5.11',
-   text="Contracts on sliceT (Len, Get, Set, Slice, Append, Delete, Copy, Range closure) and NewSlice/newSlice over the engine's slice model (array identity, offset, len, cap): sub-slices share the array, append in capacity writes in place and beyond capacity allocates a fresh array leaving the old one untouched, bounds errors exactly when Go panics, element typing via assign. The items-layout clause of Append for multi-append paths was intractable and is not claimed.",
+   text="Contracts on sliceT (Len, Get, Set, Slice, Append, Delete, Copy, Range closure) and NewSlice/newSlice over the engine's slice model (array identity, offset, len, cap): sub-slices share the array, append in capacity writes in place and beyond capacity allocates a fresh array leaving the old one untouched, bounds errors exactly when Go panics, element typing via assign, Value.Slice on nil slices. Known finding D14 (negative upper bound accepted by SLICE). The items-layout clause of Append for multi-append paths was intractable and is not claimed.",
    technique=TECH),
  'C12': dict(level='proof', design='5.12',
    text="The robin-hood table intmap.go is verified against its full invariant (home-slot relation, probe-chain property, unique keys, load bound via a ghost occupancy count): Get and Assign are complete (a live key is always found), insert preserves the invariant and adds exactly the new entry (displacement loop with carried-pair invariants), resize re-inserts every entry (view preserved), Set, Copy (fresh array, same view), init, newIntMap. On top of it the struct layer: newStruct, newStructByIndex/NewStruct (instance = copy of the type's fields in a fresh array, shared Lookup/Order/Methods pointer), SetIndex/SetAttr (only the addressed field changes, value typed by assign), GetIndex/GetAttr (field, else bound method via newMethod), addField, syncFields, addMethod, and the STRUCT/GLOBALSTRUCT/NEWSTRUCT/SETMETHOD cases. Assumed (listed in evidence): intMap.Delete (backward-shift deletion; not called by any production code), the counting facts COUNT about the ghost occupancy count, the power-of-two facts POW2 (checked on 64-bit vectors by lemmas each run), the 3-line dispatchers Value.getIndex/setIndex. Termination of the probe loops is not claimed.",
    technique=TECH),
  'C13': dict(level='proof', design='5.13',
-   text="Contracts on stringT (Len, Get, Slice, Set refusal, Append, Delete) over the uninterpreted string theory with byte-length axioms, token.Char for character literals, and convert[TypeString]. Three genuine defects were repaired (fix: commits for D15, D16, D17). Rune decoding inside range-over-string is outside the engine's string model (trusted: Go's own range over string).",
+   text="Contracts on stringT (Len, Get, Slice, Set refusal, Append, Delete) over the uninterpreted string theory with byte-length axioms, token.Char for character literals, and convert[TypeString]. Three genuine defects were repaired (fix: commits for D15, D16, D17). stringT.Range and its iterator are verified against Go's decoder modelled as uninterpreted runeAt/runeWidth (byte offsets, every rune start exactly once, the whole string).",
    technique=TECH),
  'C14': dict(level='proof', design='5.14',
    text="Termination and shape of rendering: every container SafeStr has a call-site obligation that it recurses only into elements whose type is itself not a container (so recursion depth is bounded by 2 and rendering terminates on self-containing values), vaSprint joins operands with exactly one space, Value.String cases delegate to fmt for scalars. Full-depth rendering of nested containers fails (known finding D18).",
@@ -53,7 +53,7 @@ claims = {
    text="Contracts on the loader (loadPackage, loadFile, rawLoadPackage, rawLoadFile, loadImports and its loops, checkConstraint) with a ghost 'loaded' set: a package is initialised at most once, imports before importer, _test.go and constraint-excluded files skipped, a cycle yields an error instead of silently dropping a package (D8 repaired); compilePkgs hands every package's compiler the same local-slot table. File-system functions are extern contracts (assumed).",
    technique=TECH),
  'C16': dict(level='proof', design='5.16',
-   text="Table obligations extracted from the REAL priority map literal and sort call of treeSort (stable sort; type > method/function > 0; imports first; init last; every statement kind in the stable default class), plus call-site obligations that every tree handed to loadImports (from loadPackage, loadFile and for every dependency) has been through treeSort (ghost predicate hoisted), and symAtPos's contract. The sort.SliceStable library call itself and joinFiles are trusted (listed as assumptions); the behavioural consequence (all permutations run identically) rests on them and on C07/C08.",
+   text="Table obligations extracted from the REAL priority map literal and sort call of treeSort (stable sort; type > method/function > 0; imports first; init last; every statement kind in the stable default class), plus call-site obligations that every tree handed to loadImports (from loadPackage, loadFile and for every dependency) has been through treeSort (ghost predicate hoisted), symAtPos's contract, and the (name) compile case (a package-level name resolves under the export-prefixed key whether or not it was declared before). The sort.SliceStable library call itself and joinFiles are trusted (listed as assumptions); the behavioural consequence (all permutations run identically) rests on them and on C07/C08.",
    technique=TECH + "; table obligations over the source literal"),
  'C17': dict(level='proof', design='5.17',
    text="Heap contracts for GLOBALFUNC (in-place copy into the existing funcT, every other function object untouched), GLOBALZERO (writes only when the variable is nil), GLOBALSET, lookup.Write/Assign. addMethod (an existing method object is overwritten in place and the method table left alone, so bound methods captured earlier run the new body), addField/syncFields (GLOBALSTRUCT merges into the existing type object).",
@@ -62,7 +62,7 @@ claims = {
    text="Round-trip contracts on every numeric/bool/object Value constructor/accessor pair, discharged for all argument values; newFunc; the NewFunc adapters 0->1, N->0, N->1, N->M (the native receives exactly the top argc values in order, they are removed, results are appended, nothing below is touched, no slicing beyond the stack); VM.Func/Call never let a panic escape. Natives are assumed not to touch vm.stack themselves. The variadic adapter and the exact result count of Func are not under contract.",
    technique=TECH),
  'C20': dict(level='proof', design='5.20',
-   text="Position lemma per optimizer rule (the fused instruction carries the position of a component that can fault, or one that the rule's own guard / Go's grammar puts on the same line) and the backtrace push/pop discipline of the activation closure. btErr emits exactly one line per non-zero backtrace entry (ghost count) after the faulting instruction's line, lambda restores the enclosing function name. The position-stamping loop at the end of compile() is not under contract.",
+   text="Position lemma per optimizer rule (the fused instruction carries the position of a component that can fault, or one that the rule's own guard / Go's grammar puts on the same line) and the backtrace push/pop discipline of the activation closure. btErr emits exactly one line per non-zero backtrace entry (ghost count) after the faulting instruction's line, lambda restores the enclosing function name. After compile()'s stamping loop every emitted instruction carries a position.",
    technique=TECH),
 }
 na_reasons = {
